@@ -56,6 +56,9 @@ type rejecter struct {
 	valid  [][2][]byte // genuine (ciphertext, contextInfo) pairs
 	n      int
 	byKind map[string]int
+	// light: candidates whose refusal needs a full decapsulation are applied with probability 1/3
+	// (P-384 and P-521 cost milliseconds per scalar multiplication).
+	light bool
 }
 
 func newRejecter(t *rapid.T, dec tink.HybridDecrypt, desc func() string) *rejecter {
@@ -87,6 +90,14 @@ func (r *rejecter) mustRejectWith(dec tink.HybridDecrypt, kind string, cand, inf
 	}
 }
 
+// costly is mustReject for candidates that reach the KEM; thinned out in light mode.
+func (r *rejecter) costly(kind string, cand, info []byte) {
+	if r.light && rapid.IntRange(0, 2).Draw(r.t, "thin") != 0 {
+		return
+	}
+	r.mustReject(kind, cand, info)
+}
+
 func (r *rejecter) record() {
 	evid.Add("reject_candidates", int64(r.n))
 	for k, v := range r.byKind {
@@ -109,17 +120,17 @@ func structural(t *rapid.T, r *rejecter, l layout, variant string, id uint32, ct
 		r.mustReject("flip-prefix", flipBit(ct, rapid.IntRange(0, plen*8-1).Draw(t, "bit_prefix")), info)
 		r.mustReject("flip-prefix-first", flipBit(ct, 0), info)
 	}
-	r.mustReject("flip-kem", flipBit(ct, rapid.IntRange(plen*8, kemEnd*8-1).Draw(t, "bit_kem")), info)
-	r.mustReject("flip-kem-first", flipBit(ct, plen*8), info)
-	r.mustReject("flip-kem-last", flipBit(ct, kemEnd*8-1), info)
-	r.mustReject("flip-kem-msb", flipBit(ct, kemEnd*8-8+7), info)
-	r.mustReject("flip-dem", flipBit(ct, rapid.IntRange(kemEnd*8, len(ct)*8-1).Draw(t, "bit_dem")), info)
-	r.mustReject("flip-dem-first", flipBit(ct, kemEnd*8), info)
-	r.mustReject("flip-last", flipBit(ct, len(ct)*8-1), info)
+	r.costly("flip-kem", flipBit(ct, rapid.IntRange(plen*8, kemEnd*8-1).Draw(t, "bit_kem")), info)
+	r.costly("flip-kem-first", flipBit(ct, plen*8), info)
+	r.costly("flip-kem-last", flipBit(ct, kemEnd*8-1), info)
+	r.costly("flip-kem-msb", flipBit(ct, kemEnd*8-8+7), info)
+	r.costly("flip-dem", flipBit(ct, rapid.IntRange(kemEnd*8, len(ct)*8-1).Draw(t, "bit_dem")), info)
+	r.costly("flip-dem-first", flipBit(ct, kemEnd*8), info)
+	r.costly("flip-last", flipBit(ct, len(ct)*8-1), info)
 	if l.tagLen > 0 {
-		r.mustReject("flip-tag", flipBit(ct, rapid.IntRange((len(ct)-l.tagLen)*8, len(ct)*8-1).Draw(t, "bit_tag")), info)
+		r.costly("flip-tag", flipBit(ct, rapid.IntRange((len(ct)-l.tagLen)*8, len(ct)*8-1).Draw(t, "bit_tag")), info)
 		if len(ct)-l.tagLen > kemEnd {
-			r.mustReject("flip-body", flipBit(ct, rapid.IntRange(kemEnd*8, (len(ct)-l.tagLen)*8-1).Draw(t, "bit_body")), info)
+			r.costly("flip-body", flipBit(ct, rapid.IntRange(kemEnd*8, (len(ct)-l.tagLen)*8-1).Draw(t, "bit_body")), info)
 		}
 	}
 	// cut points
@@ -131,29 +142,29 @@ func structural(t *rapid.T, r *rejecter, l layout, variant string, id uint32, ct
 	r.mustReject("cut-kem-1", ct[:kemEnd-1], info)
 	if exhaustiveCuts {
 		for c := kemEnd; c < kemEnd+16 && c < len(ct); c++ {
-			r.mustReject("cut-after-kem-all", ct[:c], info)
+			r.costly("cut-after-kem-all", ct[:c], info)
 		}
 	} else {
-		r.mustReject("cut-after-kem", ct[:kemEnd], info)
+		r.costly("cut-after-kem", ct[:kemEnd], info)
 		if kemEnd+15 < len(ct) {
-			r.mustReject("cut-after-kem", ct[:kemEnd+15], info)
+			r.costly("cut-after-kem", ct[:kemEnd+15], info)
 		}
 		if c := rapid.IntRange(kemEnd, kemEnd+15).Draw(t, "cut_dem"); c < len(ct) {
-			r.mustReject("cut-after-kem", ct[:c], info)
+			r.costly("cut-after-kem", ct[:c], info)
 		}
 	}
 	if c := rapid.IntRange(kemEnd, len(ct)-1).Draw(t, "cut_any"); true {
-		r.mustReject("cut-any", ct[:c], info)
+		r.costly("cut-any", ct[:c], info)
 	}
-	r.mustReject("cut-last", ct[:len(ct)-1], info)
+	r.costly("cut-last", ct[:len(ct)-1], info)
 	r.mustReject("empty", []byte{}, info)
 	r.mustReject("nil", nil, info)
 	// extension and shifts
-	r.mustReject("append", cat(ct, rapid.SliceOfN(rapid.Byte(), 1, 32).Draw(t, "suffix")), info)
-	r.mustReject("append-zero", cat(ct, []byte{0}), info)
-	r.mustReject("prepend-zero", cat([]byte{0}, ct), info)
-	r.mustReject("drop-kem-byte", cat(ct[:plen], ct[plen+1:]), info)
-	r.mustReject("insert-kem-byte", cat(ct[:kemEnd], []byte{0}, ct[kemEnd:]), info)
+	r.costly("append", cat(ct, rapid.SliceOfN(rapid.Byte(), 1, 32).Draw(t, "suffix")), info)
+	r.costly("append-zero", cat(ct, []byte{0}), info)
+	r.costly("prepend-zero", cat([]byte{0}, ct), info)
+	r.costly("drop-kem-byte", cat(ct[:plen], ct[plen+1:]), info)
+	r.costly("insert-kem-byte", cat(ct[:kemEnd], []byte{0}, ct[kemEnd:]), info)
 	// prefixes
 	body := ct[plen:]
 	if plen > 0 {
@@ -167,20 +178,20 @@ func structural(t *rapid.T, r *rejecter, l layout, variant string, id uint32, ct
 		r.mustReject("prefix-other-id", cat(tk.Prefix(variant, id^0x80000000), body), info)
 		r.mustReject("prefix-doubled", cat(ct[:plen], ct), info)
 	} else {
-		r.mustReject("prefix-added-tink", cat(tk.Prefix(tk.Tink, gen.KeyID(t, "addid")), ct), info)
-		r.mustReject("prefix-added-crunchy", cat(tk.Prefix(tk.Crunchy, 0), ct), info)
+		r.costly("prefix-added-tink", cat(tk.Prefix(tk.Tink, gen.KeyID(t, "addid")), ct), info)
+		r.costly("prefix-added-crunchy", cat(tk.Prefix(tk.Crunchy, 0), ct), info)
 	}
 	// context info
 	im := gen.Mutate(t, "info", info)
-	r.mustReject("info-"+im.Kind, ct, im.Out)
+	r.costly("info-"+im.Kind, ct, im.Out)
 	if len(info) > 0 {
-		r.mustReject("info-dropped", ct, nil)
-		r.mustReject("info-extended-zero", ct, cat(info, []byte{0}))
-		r.mustReject("info-first-bit", ct, flipBit(info, 0))
+		r.costly("info-dropped", ct, nil)
+		r.costly("info-extended-zero", ct, cat(info, []byte{0}))
+		r.costly("info-first-bit", ct, flipBit(info, 0))
 		// the last info byte moved in front of the ciphertext body
-		r.mustReject("info-shifted-into-ct", cat(ct[:plen], info[len(info)-1:], ct[plen:]), info[:len(info)-1])
+		r.costly("info-shifted-into-ct", cat(ct[:plen], info[len(info)-1:], ct[plen:]), info[:len(info)-1])
 	} else {
-		r.mustReject("info-added", ct, []byte{0})
+		r.costly("info-added", ct, []byte{0})
 	}
 }
 
